@@ -712,6 +712,70 @@ static inline int safec_out_fct(char character, void *wrap, size_t idx,
     return ((out_fct_wrap_type *)wrap)->fct(character, ((out_fct_wrap_type *)wrap)->arg);
 }
 
+/* Find an n conversion in a printf or scanf format: "%%" is skipped, and flags,
+   field width, precision, assignment suppression and length modifiers are walked
+   over, so that "%%%n", "%ln", "%hhn", "%5n" or "%-n" are found as well as "%n",
+   while "%%n" and the contents of a scan set are not.  Returns a pointer to the
+   'n' or NULL. */
+static inline char *safec_find_percent_n(const char *fmt) {
+    while (*fmt) {
+        if (*fmt++ != '%')
+            continue;
+        if (*fmt == '%') {
+            fmt++;
+            continue;
+        }
+        while (*fmt && strchr("-+ #0123456789.*'", *fmt))
+            fmt++;
+        while (*fmt && strchr("hlLjztq", *fmt))
+            fmt++;
+        if (*fmt == 'n')
+            return (char *)fmt;
+        if (*fmt == '[') { /* scan set: its contents are not directives */
+            fmt++;
+            if (*fmt == '^')
+                fmt++;
+            if (*fmt == ']')
+                fmt++;
+            while (*fmt && *fmt != ']')
+                fmt++;
+        }
+        if (*fmt && *fmt != '%')
+            fmt++;
+    }
+    return NULL;
+}
+#ifndef SAFECLIB_DISABLE_WCHAR
+static inline wchar_t *safec_find_percent_wn(const wchar_t *fmt) {
+    while (*fmt) {
+        if (*fmt++ != L'%')
+            continue;
+        if (*fmt == L'%') {
+            fmt++;
+            continue;
+        }
+        while (*fmt && *fmt < 128 && strchr("-+ #0123456789.*'", (int)*fmt))
+            fmt++;
+        while (*fmt && *fmt < 128 && strchr("hlLjztq", (int)*fmt))
+            fmt++;
+        if (*fmt == L'n')
+            return (wchar_t *)fmt;
+        if (*fmt == L'[') {
+            fmt++;
+            if (*fmt == L'^')
+                fmt++;
+            if (*fmt == L']')
+                fmt++;
+            while (*fmt && *fmt != L']')
+                fmt++;
+        }
+        if (*fmt && *fmt != L'%')
+            fmt++;
+    }
+    return NULL;
+}
+#endif
+
 // mingw has a _vsnprintf_s. we use our own.
 int safec_vsnprintf_s(out_fct_type out, const char *funcname, char *buffer,
                       const size_t bufsize, const char *format, va_list va);
